@@ -217,7 +217,10 @@ def teval(e: ast.AST, env: dict, leaf: Optional[Callable] = None, depth: int = 0
         for v in e.values:
             out = ev(v)
             if _is_arr(out):
-                raise NotEvaluable("and / or on a tensor")
+                if out.size != 1:
+                    raise NotEvaluable("and / or on a tensor")
+                out = out.reshape(-1)[0]  # (a one-element tensor in a boolean context is its element)
+                out = bool(out) if isinstance(out, np.bool_) else out
             if (isinstance(e.op, ast.And) and not out) or (isinstance(e.op, ast.Or) and out):
                 return out
         return out
@@ -467,6 +470,17 @@ def _call_impl(c: ast.Call, ev, t: str):
     if name in ("torch.clamp_min", "torch.clamp_max") and len(c.args) == 2:
         a, v = _as_exact(ev(c.args[0])), ev(c.args[1])
         return np.where(a < v, v, a) if name.endswith("min") else np.where(a > v, v, a)
+    if name in ("math.log", "math.exp", "math.sqrt") and len(c.args) == 1 and not c.keywords:
+        v = ev(c.args[0])
+        if _is_arr(v) or isinstance(v, bool) or not isinstance(v, (int, float, Fraction)):
+            raise NotEvaluable(name)
+        if name == "math.log":
+            if v <= 0:
+                raise ValueError("math domain error")
+            return Fraction(0) if v == 1 else math.log(v)
+        if name == "math.exp":
+            return Fraction(1) if v == 0 else math.exp(v)
+        return exact_sqrt(v)
     if name in ("torch.tensor", "torch.as_tensor") and len(c.args) == 1:
         v = ev(c.args[0])
         if _is_arr(v):
@@ -700,6 +714,14 @@ def _call_impl(c: ast.Call, ev, t: str):
                 else:
                     idxs[ix + (r_,)] = Fraction(j_)
         return (np.moveaxis(vals, -1, d), np.moveaxis(idxs, -1, d))
+    if m == "permute" and c.args:
+        dims = [ev(a_) for a_ in c.args]
+        if len(dims) == 1 and isinstance(dims[0], tuple):
+            dims = list(dims[0])
+        dims = [_axis(_int(d_), x.ndim) for d_ in dims]
+        if sorted(dims) != list(range(x.ndim)):
+            raise ValueError("permute dimensions")
+        return np.transpose(x, dims)
     if m == "sort":
         dim, desc = _kw(c, ev, ["dim", "descending"], [-1, False])
         a_ = _axis(_int(dim), x.ndim)
@@ -749,7 +771,8 @@ def _call_impl(c: ast.Call, ev, t: str):
         if not isinstance(shape, tuple):
             shape = tuple(ev(a) for a in (c.args if m != "new_full" else c.args[:1]))
         out = np.empty(tuple(_int(s_) for s_ in shape), dtype=object)
-        out[...] = Fraction(1) if m == "new_ones" else (Fraction(ev(c.args[1])) if m == "new_full" else Fraction(0))
+        fv_ = ev(c.args[1]) if m == "new_full" else None
+        out[...] = Fraction(1) if m == "new_ones" else ((fv_ if isinstance(fv_, float) else Fraction(fv_)) if m == "new_full" else Fraction(0))
         return out
     if m in ("clamp_min", "clamp_max", "clamp_min_", "clamp_max_"):
         (v,) = _kw(c, ev, ["min" if "min" in m else "max"], [None])
